@@ -90,12 +90,69 @@ void harness(void) {
     return j
 
 
+# ---- neighbour and spacing queries (adjacentNeighborDistances / adjacentNeighborsOf / diagonalNeighborsOf) --------------------
+def neighbour_job(nt, nrmax=9):
+    rules, hashes = Rules("C17"), {}
+    c = [units.PRELUDE_I, units.POLARGRID_STRUCT]
+    c.append(units.polargrid_instance("G", "I", rules, nrmax, nt, hashes))
+    c.append(reference_functions("G", rules, hashes))
+    c.append("struct pair_d { real_t first, second; }; struct pair_i { int first, second; };")
+    c.append("static struct pair_d neighbor_distance[2]; static struct pair_i neighbors[2];")
+    src = Src.get(REF)
+    for fn in ("adjacentNeighborDistances", "adjacentNeighborsOf", "diagonalNeighborsOf"):
+        f = src.function("PolarGrid::" + fn)
+        if [pn for (_, pn) in f["params"]][0] != "position":
+            raise ExtractError("%s: first parameter is no longer the node position" % fn)
+        hashes["PolarGrid::" + fn] = sha(f["body"])
+        b = f["body"]
+        b = rules.sub("C17.mi_decl", r"MultiIndex\s+neigbor_position\s*=\s*position;", "int neigbor_position[2] = { position_0, position_1 };", b)
+        b = rules.sub("C17.mi_assign", r"(?m)^(\s*)neigbor_position\s*=\s*position;", r"\1neigbor_position[0] = position_0; neigbor_position[1] = position_1;", b)
+        b = rules.sub("C17.position", r"\bposition\[(\d)\]", r"position_\1", b, expect="+")
+        b = rules.sub("C17.index_of_multiindex", r"(?<![\w.])index\(neigbor_position\)", "G__index_ref(neigbor_position[0], neigbor_position[1])", b)
+        b = rules.sub("C17.spacing_accessors", r"(?<![\w.])(radialSpacing|angularSpacing)\(", r"G.\1(", b)
+        b = common_body_rewrites(b, rules, "I")
+        b = re.sub(r"(?<![\w.])(nr|ntheta)\(\)", lambda m: "G__%s()" % m.group(1), b)
+        if re.search(r"MultiIndex|std::|\bposition\b", b):
+            raise ExtractError("unhandled construct in PolarGrid::%s" % fn)
+        c.append("static void G__%s(const int position_0, const int position_1)\n{%s}\n" % (fn, b))
+    h = r"""
+void harness(void) {
+    int nr = nondet_int(), nsc = nondet_int();
+    __CPROVER_assume(2 <= nr && nr <= @NRMAX@ && 0 <= nsc && nsc <= nr);
+    G__nr_ = nr; G__ntheta_ = @NT@; G__is_ntheta_PowerOfTwo_ = @POW2@;
+    G__number_smoother_circles_ = nsc; G__length_smoother_radial_ = nr - nsc;
+    G__number_circular_smoother_nodes_ = nsc * @NT@; G__number_radial_smoother_nodes_ = (nr - nsc) * @NT@;
+    for (int i = 0; i < @NRMAX@; i++) { G__radial_spacings_[i] = nondet_real(); __CPROVER_assume(G__radial_spacings_[i] > 0); }
+    for (int j = 0; j < @NT@; j++) { G__angular_spacings_[j] = nondet_real(); __CPROVER_assume(G__angular_spacings_[j] > 0); }
+    int i = nondet_int(), j = nondet_int();
+    __CPROVER_assume(0 <= i && i < nr && 0 <= j && j < @NT@);
+    const int jm = (j + @NT@ - 1) % @NT@, jp = (j + 1) % @NT@;
+    G__adjacentNeighborDistances(i, j);
+    __CPROVER_assert(neighbor_distance[0].first == (i == 0 ? 0 : G__radial_spacings_[i - 1]) && neighbor_distance[0].second == (i == nr - 1 ? 0 : G__radial_spacings_[i]), "OBL:radial_neighbour_distances_are_the_adjacent_spacings(0 at the boundaries)");
+    __CPROVER_assert(neighbor_distance[1].first == G__angular_spacings_[jm] && neighbor_distance[1].second == G__angular_spacings_[j], "OBL:angular_neighbour_distances_are_the_adjacent_spacings(periodic)");
+    G__adjacentNeighborsOf(i, j);
+    __CPROVER_assert(neighbors[0].first == (i == 0 ? -1 : G.index(i - 1, j)) && neighbors[0].second == (i == nr - 1 ? -1 : G.index(i + 1, j)), "OBL:radial_neighbours_are_the_adjacent_nodes(-1 outside)");
+    __CPROVER_assert(neighbors[1].first == G.index(i, jm) && neighbors[1].second == G.index(i, jp), "OBL:angular_neighbours_are_the_adjacent_nodes(periodic)");
+    G__diagonalNeighborsOf(i, j);
+    __CPROVER_assert(neighbors[0].first == (i == 0 ? -1 : G.index(i - 1, jm)) && neighbors[0].second == (i == nr - 1 ? -1 : G.index(i + 1, jm)), "OBL:lower_diagonal_neighbours(-1 outside, periodic)");
+    __CPROVER_assert(neighbors[1].first == (i == 0 ? -1 : G.index(i - 1, jp)) && neighbors[1].second == (i == nr - 1 ? -1 : G.index(i + 1, jp)), "OBL:upper_diagonal_neighbours(-1 outside, periodic)");
+    __CPROVER_assert(0, "COVER:reached_end");
+}
+""".replace("@NT@", str(nt)).replace("@POW2@", "1" if (nt & (nt - 1)) == 0 else "0").replace("@NRMAX@", str(nrmax))
+    j = Job("C17.neighbours[ntheta=%d]" % nt, "\n".join(c) + h, "P", unwind=max(nrmax, nt) + 2, timeout=600,
+            bounded="unwind %d (harness initialisation loops only); ntheta fixed = %d, nr <= %d and split symbolic, node symbolic" % (max(nrmax, nt) + 2, nt, nrmax),
+            functions=["PolarGrid::adjacentNeighborDistances", "PolarGrid::adjacentNeighborsOf", "PolarGrid::diagonalNeighborsOf", "PolarGrid::radialSpacing", "PolarGrid::angularSpacing"],
+            covers={"COVER:reached_end"})
+    j.rules, j.hashes = rules, hashes
+    return j
+
+
 def gridgen_keep(desc):
     return (not desc.startswith("OBL:")) or bool(re.match(r"OBL:(coarse|radial_spacing|angular_spacing|spacing_array)", desc))
 
 
 def build_jobs(tier, seed):
-    return [split_job(nt) for nt in (4, 6, 8, 12, 64)] + [split_job(4, "nr==2")] + [job_for(nt) for nt in (NTHETAS_QUICK if tier == "quick" else NTHETAS_THOROUGH)]
+    return [split_job(nt) for nt in (4, 6, 8, 12, 64)] + [split_job(4, "nr==2")] + [neighbour_job(nt) for nt in ((4, 6, 8) if tier == "quick" else (4, 6, 8, 10, 12, 16))] + [job_for(nt) for nt in (NTHETAS_QUICK if tier == "quick" else NTHETAS_THOROUGH)]
 
 
 EXPLANATION = (
@@ -105,7 +162,9 @@ EXPLANATION = (
     "angular index: range, congruence, periodicity, fast == reference, both compositions are the identity, circle/radial partition. "
     "Bounded in ntheta only (a symbolic divisor does not terminate on any installed back end). Spacing arrays == coordinate differences "
     "and coarseningGrid keeps every second radius / angle incl. both boundaries: decided by the grid-generation jobs (props/gridgen.py, "
-    "Layer R, bounded in the generation exponents). Neighbour queries (adjacentNeighborsOf / distances: std::array code) are not covered.")
+    "Layer R, bounded in the generation exponents). Neighbour queries: adjacentNeighborDistances / adjacentNeighborsOf / diagonalNeighborsOf (MultiIndex -> "
+    "two ints, std::array<std::pair> -> struct array) return the adjacent spacings / node numbers, 0 resp. -1 outside the grid, periodic in theta (nr <= 9, "
+    "listed ntheta).")
 
 
 def index_replay_cb(job, key, label, rec):
